@@ -147,5 +147,20 @@ CLAIMED['C18'] = dict(
     technique="TLA+ reference/ownership model of temp-file holders checked by TLC; TLC-generated histories with predicted "
               "file counts replayed on real views; trace validation by TLC",
     design="3/C18, appendix A")
+CLAIMED['C17'] = dict(
+    text="DbLoad.tla models todb/appenddb as the DB-API protocol petl runs (header pull, DELETE, one INSERT per source "
+         "pull, commit, close of a connection petl opened itself) with the database's transaction semantics explicit "
+         "(durable = what a fresh connection sees, pending = petl's open transaction). TLC checks, for every prior "
+         "contents x new rows x failure point (header, each row, exhaustion) x handle kind (file name, connection, "
+         "cursor, cursor factory) x commit flag x todb/appenddb: AllOrNothing, FailureKeepsOld, SuccessIsFinal, "
+         "NoCommitLeavesPending, and that durable contents change only in Commit after a normal end of the source. "
+         "Every terminal behaviour is replayed on a real sqlite file with failure injection; a fresh connection reads the "
+         "table after the call (property level) and after every DB-API call through a recording proxy (call sequence = "
+         "model level). Random larger loads are recorded and validated by DbLoadTrace, which drives DbLoad's own actions.",
+    note="sqlite3 only (no SQLAlchemy / server drivers installed); create/drop (DDL) outside the statement; for commit=False "
+         "on a caller-owned handle the driver commits itself and expects the new contents.",
+    technique="TLA+ transaction/protocol model checked by TLC; all model behaviours replayed on real sqlite with fault "
+              "injection; DB-API call traces validated by TLC",
+    design="3/C17")
 
 NOT_APPLICABLE = {}
